@@ -830,11 +830,30 @@ func c19ExactFirst(p *Program, r *Report) {
 		}
 		for _, fn := range SrcFuncs(sp) {
 			k := 0
+			kp := 0
 			for _, b := range fn.Blocks {
 				for _, in := range b.Instrs {
 					c, ok := in.(*ssa.Call)
 					if !ok {
 						continue
+					}
+					// the numeral strings of the builtins are decimal and 64 bits wide: a parse with base 0 reads "010" as 8
+					// and "0x10" as 16, a narrower width refuses (or rounds) what Go's conversion of the same numeral gives
+					if o := calleeObj(c); suffix == "core" && o != nil && (isFuncNamed(o, "strconv", "", "ParseInt") || isFuncNamed(o, "strconv", "", "ParseFloat")) {
+						kp++
+						isInt := o.Name() == "ParseInt"
+						good, what := true, "64 bits"
+						if isInt {
+							what = "base 10, 64 bits"
+							if !constIntEverywhere(c.Call.Args[1], 10) {
+								good = false
+							}
+						}
+						if !constIntEverywhere(c.Call.Args[len(c.Call.Args)-1], 64) {
+							good = false
+						}
+						r.Check(good, "C19.R5", fmt.Sprintf("%s|%s #%d reads a decimal numeral of full width", funcName(fn), o.Name(), kp), p.Pos(c.Pos()), what,
+							"a numeral string handed to a conversion builtin is not parsed as a decimal numeral of 64 bits ("+what+"): strings such as \"010\", \"0x10\" or a value beyond the narrower width no longer follow Go's decimal parsing")
 					}
 					strArg, isFP := floatParseOf(c)
 					if !isFP {
@@ -903,6 +922,53 @@ func c19ExactFirst(p *Program, r *Report) {
 		}
 	}
 	r.Floor("C19.R5", n, 1)
+}
+
+// constIntEverywhere: v is the integer constant want, or a parameter that every call site of its function (in the
+// function's package) fills with that constant.
+func constIntEverywhere(v ssa.Value, want int64) bool {
+	if cst, ok := v.(*ssa.Const); ok {
+		return cst.Value != nil && cst.Int64() == want
+	}
+	prm, ok := v.(*ssa.Parameter)
+	if !ok || prm.Parent() == nil || prm.Parent().Pkg == nil {
+		return false
+	}
+	fn := prm.Parent()
+	idx := -1
+	for i, q := range fn.Params {
+		if q == prm {
+			idx = i
+		}
+	}
+	sites := 0
+	for _, f2 := range SrcFuncs(fn.Pkg) {
+		for _, b := range f2.Blocks {
+			for _, in := range b.Instrs {
+				ci, ok := in.(ssa.CallInstruction)
+				if !ok {
+					continue
+				}
+				if staticCallee(ci) != fn {
+					// the function used as a value: its callers are not known
+					for _, a := range ci.Common().Args {
+						if a == ssa.Value(fn) {
+							return false
+						}
+					}
+					continue
+				}
+				sites++
+				if idx >= len(ci.Common().Args) {
+					return false
+				}
+				if cst, ok := ci.Common().Args[idx].(*ssa.Const); !ok || cst.Value == nil || cst.Int64() != want {
+					return false
+				}
+			}
+		}
+	}
+	return sites > 0
 }
 
 // sameStringArg: two string operands are the same value (same SSA value, or type assertions / conversions of the same source).
